@@ -72,6 +72,7 @@ type Exec struct {
 	atWitness int
 	idxElemSort map[int]map[string]bool
 	canonStrs []canonStr // strings used inside map keys, with their canonical representatives
+	fnConsts  []fnConst  // closures that were stored as terms
 }
 
 type InputSym struct {
@@ -159,10 +160,38 @@ func (x *Exec) assertsBefore(fr *Frame, st *State, in *ssa.Call) {
 		name = in.Call.Method.Name()
 	} else if f := in.Call.StaticCallee(); f != nil {
 		name = f.Name()
+		// an instance of a generic function is also addressed by the generic function's name
+		if o := f.Origin(); o != nil && o != f {
+			for _, cl := range fr.contract.Clauses {
+				if (cl.Kind == "assert" || cl.Kind == "bind") && cl.Name == o.Name() {
+					name = o.Name()
+				}
+			}
+		}
 	}
 	if name == "" {
 		return
 	}
+	// arg0, arg1, ...: the actual arguments of the call (for an invoked method: after the receiver)
+	argLets := map[string]*Val{}
+	for i, a := range in.Call.Args {
+		argLets[fmt.Sprintf("arg%d", i)] = x.get(fr, a)
+	}
+	saved := map[string]*Val{}
+	for k, v := range argLets {
+		if old, ok := fr.lets[k]; ok {
+			saved[k] = old
+		}
+		fr.lets[k] = v
+	}
+	defer func() {
+		for k := range argLets {
+			delete(fr.lets, k)
+		}
+		for k, v := range saved {
+			fr.lets[k] = v
+		}
+	}()
 	for _, cl := range fr.contract.Clauses {
 		if cl.Kind == "bind" && cl.Name == name {
 			cl.Used = true
@@ -1313,6 +1342,12 @@ func (x *Exec) storeSpecial(fr *Frame, st *State, p *Pointer, val *Val) {
 		x.job.special[key] = val
 		return
 	}
+	// a closure with a known body stored into a slice element or a field: it becomes a function constant (a term) that
+	// callClosure resolves back to the body by case distinction over the constants of this job
+	if val.Clo != nil && val.Clo.Fn != nil && val.T == nil {
+		x.store(st, p, x.fnConst(val.Clo))
+		return
+	}
 	unsupportedf("store of non-term value through %v", p.kind)
 }
 
@@ -2089,4 +2124,21 @@ func nlinkCap() int {
 		return n
 	}
 	return 400
+}
+
+// function constants: closures stored in data structures
+type fnConst struct {
+	term *Term
+	clo  *Closure
+}
+
+func (x *Exec) fnConst(c *Closure) *Term {
+	for _, fc := range x.fnConsts {
+		if fc.clo == c {
+			return fc.term
+		}
+	}
+	t := IntLit(int64(7000000 + len(x.fnConsts)))
+	x.fnConsts = append(x.fnConsts, fnConst{term: t, clo: c})
+	return t
 }
